@@ -1,7 +1,7 @@
 (* C01/Property.v — property theorems only. *)
 From Coq Require Import Bool List String.
-From Verif Require Import Base.Py Base.Py2 Base.Str C01.Model C01.Spec C01.Proofs C01.Source2.
-From VerifGen Require Import C01Tables C01Src2 C01Src2p.
+From Verif Require Import Base.Py Base.Py2 Base.Str C01.Model C01.Spec C01.Proofs C01.Source2 C01.Source2pa.
+From VerifGen Require Import C01Tables C01Src2 C01Src2p C01Src2a.
 Import ListNotations.
 
 (* C01: for every setting of the three want_* options and of only_use_keys_in_metadata (unset / True /
@@ -324,3 +324,37 @@ Theorem c01_source2_chain_client :
   = parse_message c m.
 Proof. exact src2_chain_client. Qed.
 Print Assumptions c01_source2_chain_client.
+
+(* ---- round 5, source tie of response.py AuthnResponse.parse_assertion (coq/gen/C01Src2a.v; the two `while` loops are
+   recursion on `fuel`, out of fuel = PErr).  Run on a Response with the LIST l of assertions (each: what is found on its
+   signature, the issuer comparison, sent plain / encrypted) by the engine of Source2pa.v (decrypt_keys opens ONE
+   EncryptedData per call, DecryptError when none is left; response_from_string / find_encrypt_data read the text as it
+   then is; _assertion and decrypt_assertions answer what Model.run_chk says), with ANY fuel above the number of
+   EncryptedData: it ends with the exception of the first failing check of the model's walk (number rule; plain
+   assertions; signatures of ALL decrypted assertions; their remaining checks) or with True and
+   self.assertions = all decrypted assertions followed by the plain ones, self.assertion the first of them,
+   self.response.encrypted_assertion emptied, self.xmlstr the fully decrypted text.  Domain: every list of at most 3
+   assertions (20^0 + .. + 20^3 = 8421), and the lists of at most 5 over {no / good / bad signature} x {plain, encrypted}
+   (9331), by one evaluation each with a free surplus of fuel. *)
+Theorem c01_source2_parse_assertion :
+  forall (q : bool) (l : list item) (fuel : nat),
+  in_domain l -> (List.length (filter i_enc l) < fuel)%nat ->
+  pa_view (pa_run fuel q l) = pa_expected q l.
+Proof. exact src2_parse_assertion_is_model. Qed.
+Print Assumptions c01_source2_parse_assertion.
+
+(* ... which the handlers of _parse_response class as Model.verify_all (the `response.verify` of Model.core_gen) of that
+   Response, for every Response with at most 3 assertions *)
+Theorem c01_source2_parse_assertion_verify_all :
+  forall (only_md q : bool) (mm : mmsg) (fuel : nat),
+  (List.length (mm_asl mm) <= 3)%nat -> (List.length (enc_of (mm_asl mm)) < fuel)%nat ->
+  outcome_of_name (exc_of (pa_view (pa_run fuel q (items_of only_md mm))))
+  = verify_all q (count_ok (mm_asl mm)) (schedule only_md mm).
+Proof. exact src2_parse_assertion_verify_all. Qed.
+Print Assumptions c01_source2_parse_assertion_verify_all.
+
+(* the names of the exceptions are a refinement of the model's outcomes *)
+Theorem c01_source2_parse_assertion_exc :
+  forall q okc sch, outcome_of_name (verify_all_exc q okc sch) = verify_all q okc sch.
+Proof. exact verify_all_exc_outcome. Qed.
+Print Assumptions c01_source2_parse_assertion_exc.
